@@ -95,6 +95,9 @@ REGEXES = {
     "lookahead": ("(?=(a+)+b)a", "a" * 40 + "c"),
     "lookbehind": ("c(?<=(a+)+bc)", "a" * 40 + "c"),
     "alternation": ("(a|aa)+$", "a" * 40 + "b"),
+    "lookahead-in-loop": ("^(?:(?=a)a|a)*$", "a" * 40 + "!"),
+    "lookbehind-in-loop": ("^(?:a(?<=a)|a(?<=a))*b", "a" * 40),
+    "backreference-loop": ("^(a*)(?:\\1a|a)*$", "a" * 40 + "!"),
 }
 RE_APIS = {
     "test": "var re = /{P}/; re.test({S});",
@@ -233,18 +236,26 @@ def run_real(payload):
     return oc + "\x00time"
 
 
-def _cases(Ts, ks, mls, loops=None, places=None, wraps=None):
+# Script-defined globals named like the engine's error kinds must not make the stop catchable.
+SHADOW = ("function InternalError(m) { this.message = m } var TimeLimitError = InternalError, MemoryLimitError = InternalError, "
+          "RegexTimeoutError = InternalError; ")
+
+
+def _cases(Ts, ks, mls, loops=None, places=None, wraps=None, shadow=False):
     out = []
     allplaces = list(PLACES) + list(EVAL_PLACES)
     for loop in (loops or LOOPS):
         for place in (places or allplaces):
             for wrap in (wraps or WRAPS):
                 src0 = build(place, loop, wrap)
+                if shadow:
+                    src0 = SHADOW + src0
                 for T in Ts:
                     for k in ks:
                         for ml in mls:
                             src = "0;" * k + src0
-                            cid = "T=%d k=%d ml=%s | %s in %s, %s | %s" % (T, k, ml, loop, place, wrap, src0)
+                            cid = "T=%d k=%d ml=%s | %s in %s, %s%s | %s" % (T, k, ml, loop, place, wrap,
+                                                                            " [error names shadowed]" if shadow else "", src0)
                             out.append((cid, {"src": src, "T": T, "ml": ml}))
     return out
 
@@ -300,10 +311,14 @@ def spaces(tier, seed, all_strata=False):
             "replace callbacks, nested callbacks, indirect eval, eval in eval, new Function) x 5 try wrappings x "
             "deadline T in {1500, 3000} steps x phase offset k in {0, 1}; every run must raise exactly TimeLimitError "
             "with <= 1016 interpreter steps and <= 216 regex steps after the virtual deadline", "T x k x product"),
+        _sp("c01_shadowed", "run_deadline", lambda: _cases([1500], [0], [None], wraps=["try-catch", "swallow-retry", "try-catch-loop"], shadow=True),
+            "the product with script globals named InternalError / TimeLimitError / MemoryLimitError defined first and a catching "
+            "wrapper: the stop must still not be catchable", "product"),
         _sp("c01_memlimit", "run_deadline", lambda: _cases([3000], [0], [10 ** 7]),
             "the same product with memory_limit = 10^7 set", "product"),
         _sp("c01_regex", "run_deadline", lambda: _re_cases([1500, 3000], [0, 1], [None]),
-            "4 catastrophic regexes (nested quantifier, inside lookahead, inside lookbehind, overlapping alternation) x "
+            "7 catastrophic regexes (nested quantifier, inside lookahead, inside lookbehind, overlapping alternation, lookahead / "
+            "lookbehind / backreference evaluated inside every iteration of a backtracking loop) x "
             "14 regex-consuming entry points x {plain, try/catch}; plus regex objects kept from an earlier eval", "product"),
         _sp("c01_realclock", "run_real", _real_cases, "real-clock smoke subset, T = 0.05 s, bound 3 s", "40 scripts", batch=3),
     ]
